@@ -1,5 +1,5 @@
 """C15 — string and character procedures index by character over all of Unicode."""
-import os, sys
+import os, sys, resource
 import gen_coq
 import common as C
 
@@ -43,6 +43,15 @@ MANIFEST = dict(
          "list->string on improper lists, char-ci beyond ASCII, digit-value beyond ASCII, optional range arguments of "
          "string->vector/vector->string. Axioms: none (Closed under the global context).",
     technique="Rocq/Coq proof (refinement of byte-offset code to lists of scalars) + model/implementation correspondence check")
+
+# coqc parses the kernel cross-check's long list literals recursively: give the children stack
+try:
+    _soft, _hard = resource.getrlimit(resource.RLIMIT_STACK)
+    _want = 1 << 30
+    if _soft != resource.RLIM_INFINITY and _soft < _want:
+        resource.setrlimit(resource.RLIMIT_STACK, (_want if _hard == resource.RLIM_INFINITY else min(_want, _hard), _hard))
+except (ValueError, OSError):
+    pass
 
 OPS = ["%alias", "string-length", "string-ref", "string-set!", "string-copy", "substring", "string-fill!", "string->list",
        "string->vector", "vector->string", "list->string", "string", "make-string", "string-append",
@@ -987,18 +996,18 @@ def corpus():
     return out
 
 
-CH_BLOCK = 256
+CH_BLOCK = 32
 
 
 def char_cases(rng, tier):
     if tier == "thorough":
         return [[31, lo, CH_BLOCK] for lo in range(0, 0x110000, CH_BLOCK)] + [[31, 0x110000, 16]]
     blocks = set(range(0, 0x3000, CH_BLOCK))
-    for lo in (0xA600, 0xA700, 0xAB00, 0xD700, 0xD800, 0xDF00, 0xE000, 0xFB00, 0xFE00, 0xFF00, 0x10400, 0x10500, 0x10C00,
+    for lo0 in (0xA600, 0xA700, 0xAB00, 0xD700, 0xD800, 0xDF00, 0xE000, 0xFB00, 0xFE00, 0xFF00, 0x10400, 0x10500, 0x10C00,
                0x118A0 & ~255, 0x16E00, 0x1D400, 0x1D700, 0x1E900, 0x1F100, 0xE0000, 0x10FF00):
-        blocks.add(lo)
-    while len(blocks) < 110:
-        blocks.add(rng.randrange(0x1100) * CH_BLOCK)
+        blocks.update(range(lo0, lo0 + 256, CH_BLOCK))
+    while len(blocks) < 1200:
+        blocks.add(rng.randrange(0x110000 // CH_BLOCK) * CH_BLOCK)
     return [[31, lo, CH_BLOCK] for lo in sorted(blocks)] + [[31, 0x110000, 16]]
 
 
@@ -1015,7 +1024,7 @@ def generate(rng, tier):
             nops += 1
     meta = {"sequences": n, "char_table_cases": len(cc), "exhaustive": tier == "thorough",
             "exhaustive_domain": "all 0x110000 code points for the table-driven builtins (interface 31)" if tier == "thorough" else
-                                 "interface 31 on %d blocks of 256 code points" % (len(cc) - 1),
+                                 "interface 31 on %d blocks of %d code points" % (len(cc) - 1, CH_BLOCK),
             "mean_ops_per_sequence_sample": round(nops / max(1, min(n, 20000)), 2),
             "ops_in_first_20000_sequences": opcount}
     return cases + cc, meta
